@@ -309,3 +309,20 @@ Proof.
   rewrite multi_apply_spec.
   destruct (mapM (fun kb => ceval [VList l] (snd kb)) (f :: r)); reflexivity.
 Qed.
+
+(* ---------- replaceList = the function applied to the list; eval = the list itself ---------- *)
+Theorem replaceList_spec : forall l body,
+  run_list (of_list l) M_replaceList [AF 1 body] = okV (ceval [VList l] body) /\
+  bind (run_list (of_list l) M_replaceList [AF 1 body]) force = spec_list l M_replaceList [AF 1 body].
+Proof.
+  intros l body. cbn [run_list spec_list arg_f1 bind]. rewrite collect_of_list. split; [reflexivity|].
+  destruct (ceval [VList l] body); reflexivity.
+Qed.
+
+Theorem list_eval_spec : forall l, run_list (of_list l) M_eval [] = Ok (PV (VList l)).
+Proof. intros l. cbn [run_list]. rewrite collect_of_list. reflexivity. Qed.
+
+(* map.replaceMap(f) is f applied to the map *)
+Theorem replaceMap_spec : forall e body,
+  run_map e M_replaceMap [AF 1 body] = okV (ceval [VMap e] body).
+Proof. intros e body. reflexivity. Qed.
